@@ -59,6 +59,63 @@ static void render(const Tree &t, int ws, int istyle, std::string &out, unsigned
     out += ")";
 }
 
+// Long inputs. A list of a million elements and a configuration tree nested a thousand deep are ordinary data; the reader's stack use must
+// not grow with the number of elements. Each input is parsed in a forked child under an 8 MiB stack limit (a crash there is a result, not the
+// death of the harness) and the tree is verified without recursion. shape 0: "(a 7 #xFF foo a 7 ...)" with n elements; 1: n lists nested in
+// each other "((( ... )))"; 2/3: the same without the closing parentheses (must be refused, nothing returned).
+#include <sys/resource.h>
+#include <sys/wait.h>
+static int long_child(int shape, size_t n) {
+    pid_t pid = fork();
+    if (pid < 0) return 8;
+    if (pid == 0) {
+        struct rlimit rl; rl.rlim_cur = rl.rlim_max = 8u << 20; setrlimit(RLIMIT_STACK, &rl);
+        static const char *ATOM[4] = {"a", "7", "#xFF", "foo"};
+        std::string in;
+        if (shape == 0 || shape == 3) { in = "("; for (size_t i = 0; i < n; i++) { if (i) in += ' '; in += ATOM[i & 3]; } if (shape == 0) in += ")"; }
+        else { in.assign(n, '('); if (shape == 1) in.append(n, ')'); }
+        struct sx_parse_result r = sx_parse_stringn(in.data(), in.size());
+        int rc = 0;
+        if (shape >= 2) { if (r.status == SXS_SUCCESS || r.node != nullptr) rc = 1; _exit(rc); }
+        if (r.status != SXS_SUCCESS || r.node == nullptr || r.position != in.size()) _exit(1);
+        struct sx_node *nd = r.node;
+        if (shape == 0) {
+            for (size_t i = 0; i < n && !rc; i++) {
+                if (nd->type != SXT_PAIR) { rc = 1; break; }
+                struct sx_node *car = nd->data.pair->car;
+                switch (i & 3) { case 0: if (car->type != SXT_SYMBOL || strcmp(car->data.symbol, "a")) rc = 1; break; case 1: if (car->type != SXT_INTEGER || car->data.u64 != 7) rc = 1; break;
+                                 case 2: if (car->type != SXT_INTEGER || car->data.u64 != 255) rc = 1; break; default: if (car->type != SXT_SYMBOL || strcmp(car->data.symbol, "foo")) rc = 1; }
+                nd = nd->data.pair->cdr;
+            }
+            if (!rc && nd->type != SXT_EMPTY_LIST) rc = 1;
+        } else {
+            for (size_t lvl = 1; lvl < n && !rc; lvl++) { if (nd->type != SXT_PAIR || nd->data.pair->cdr->type != SXT_EMPTY_LIST) { rc = 1; break; } nd = nd->data.pair->car; }
+            if (!rc && nd->type != SXT_EMPTY_LIST) rc = 1;
+        }
+        if (!rc) { sx_destroy(&r.node); if (r.node != nullptr) rc = 1; }
+        _exit(rc);
+    }
+    int st = 0;
+    if (waitpid(pid, &st, 0) != pid) return 8;
+    if (WIFSIGNALED(st) || (WIFEXITED(st) && WEXITSTATUS(st) == 77)) return 2;   // 77: the sanitizer's exit code (it reports the stack overflow itself)
+    return WIFEXITED(st) ? WEXITSTATUS(st) : 8;
+}
+static void long_inputs() {
+    struct L { int shape; size_t n; };
+    for (L l : {L{0, 1000}, L{0, 100000}, L{0, 1000000}, L{3, 100000}, L{3, 1000000}, L{1, 100}, L{1, 1000}, L{2, 1000}, L{1, 100000}, L{2, 100000}}) {
+        std::string rep = vp::fmt("long %d %zu\n", l.shape, l.n);
+        vp::CaseScope scope([rep] { return rep; });
+        bool flat = l.shape == 0 || l.shape == 3, deep = !flat && l.n > 1000;
+        std::string key = flat ? "long-list" : deep ? "deep-nesting" : "nesting";
+        if (deep && vp::excluded("deep-nesting:stack-exhaustion")) { vp::stats().excluded++; vp::cls("nesting-beyond-1000-levels (known finding, not run)"); continue; }
+        int rc = long_child(l.shape, l.n);
+        vp::count(); vp::nontrivial(vp::fnv(rep)); vp::cls(flat ? "list-of-10^3..10^6-elements" : "lists-nested-100..1000-deep");
+        if (rc == 8) { vp::stats().notes["long_inputs"] = "fork/wait failed: phase skipped"; return; }
+        if (rc == 2) vp::fail(key + ":stack-exhaustion", vp::fmt("%s %zu %s kills the process (stack exhausted under an 8 MiB limit): the reader's stack use grows with the input", flat ? "a list of" : "lists nested", l.n, flat ? "elements" : "deep"), rep);
+        else if (rc) vp::fail(key + (l.shape >= 2 ? ":unterminated-accepted" : ":wrong-tree"), vp::fmt("%s %zu: %s", flat ? "list of" : "nesting depth", l.n, l.shape >= 2 ? "input without closing parentheses was not refused cleanly" : "the tree returned is not the tree written"), rep);
+    }
+}
+
 // expressions that begin 2 GiB and more into the input (address space only: the input is an untouched MAP_NORESERVE mapping of zero
 // octets with the expression written near its end): positions that pass through a 32-bit or signed variable show here
 #include <sys/mman.h>
@@ -152,10 +209,12 @@ static void run() {
             vp::cls("every-octet-in-every-token-position");
         }
     if (a.shard == 1 % a.nshards && !vp::vg().on) giant_offsets();
+    if (a.shard == 2 % a.nshards && !vp::vg().on) long_inputs();
 }
 static bool replay(const std::string &text) {
     auto w = vp::split(vp::lines(text).at(0));
     if (!w.empty() && w[0] == "giant") { giant_offsets(); return vp::stats().failures.empty(); }
+    if (w.size() >= 3 && w[0] == "long") { long_inputs(); return vp::stats().failures.empty(); }
     if (w.empty() || w[0] != "sx") return false;
     std::string in;
     if (w.size() >= 2) { auto b = vp::unhex(w[1]); in.assign(b.begin(), b.end()); }
